@@ -235,3 +235,65 @@ func VerifC04Gtx() {
 		vrt.Assert(err != nil, "c04/cancelled=>error")
 	}
 }
+
+
+// VerifC04Nested: the initiator's decision when its callback runs an inner
+// scope on the same context whose begin fails (or succeeds) and tolerates the
+// inner error: the outer transaction still gets exactly one decision.
+func VerifC04Nested() {
+	config = TmConfig{CommitRetryCount: 1, RollbackRetryCount: 1}
+	ctx, cancel := context.WithCancel(context.Background())
+	defer cancel()
+	var log []c04Call
+	nbegin := 0
+	innerBeginFails := vrt.Bool("inner.begin.fails")
+	vrt.Redirect((*getty.GettyRemotingClient).SendSyncRequest, func(_ *getty.GettyRemotingClient, msg interface{}) (interface{}, error) {
+		ok := message.AbstractTransactionResponse{AbstractResultMessage: message.AbstractResultMessage{ResultCode: message.ResultCodeSuccess}}
+		switch m := msg.(type) {
+		case message.GlobalBeginRequest:
+			nbegin++
+			if nbegin == 1 {
+				log = append(log, c04Call{kind: c04Begin, xid: "outer"})
+				return message.GlobalBeginResponse{AbstractTransactionResponse: ok, Xid: "outer"}, nil
+			}
+			log = append(log, c04Call{kind: c04Begin, xid: "inner"})
+			if innerBeginFails {
+				return nil, errors.New("wait response timeout")
+			}
+			return message.GlobalBeginResponse{AbstractTransactionResponse: ok, Xid: "inner"}, nil
+		case message.GlobalCommitRequest:
+			log = append(log, c04Call{kind: c04Commit, xid: m.Xid})
+			return message.GlobalCommitResponse{AbstractGlobalEndResponse: message.AbstractGlobalEndResponse{AbstractTransactionResponse: ok}}, nil
+		case message.GlobalRollbackRequest:
+			log = append(log, c04Call{kind: c04Rollback, xid: m.Xid})
+			return message.GlobalRollbackResponse{AbstractGlobalEndResponse: message.AbstractGlobalEndResponse{AbstractTransactionResponse: ok}}, nil
+		}
+		return nil, errors.New("unexpected request")
+	})
+	innerMode := []Propagation{RequiresNew, Never, Mandatory, Required, NotSupported, Supports}[vrt.Choice("inner.mode", 6)]
+	outerFails := vrt.Bool("outer.fails")
+	err := WithGlobalTx(ctx, &GtxConfig{Name: "outer"}, func(c context.Context) error {
+		_ = WithGlobalTx(c, &GtxConfig{Name: "inner", Propagation: innerMode}, func(context.Context) error { return nil })
+		if outerFails {
+			return errors.New("outer business failed")
+		}
+		return nil
+	})
+	vrt.Reach("nested/end")
+	commits, rollbacks := 0, 0
+	for _, c := range log {
+		if c.xid == "outer" && c.kind == c04Commit {
+			commits++
+		}
+		if c.xid == "outer" && c.kind == c04Rollback {
+			rollbacks++
+		}
+	}
+	if outerFails {
+		vrt.Assert(err != nil, "nested/outer-error-surfaces")
+		vrt.Assert(commits == 0 && rollbacks == 1, "nested/outer-rolled-back-exactly-once")
+	} else {
+		vrt.Assert(commits == 1 && rollbacks == 0, "nested/outer-committed-exactly-once")
+		vrt.Assert(err == nil, "nested/outer-ok")
+	}
+}
